@@ -891,10 +891,19 @@ func ruleMemoryTipFollowsPersistedTip(c *report.Ctx) {
 			if len(os) == 0 {
 				fromSynced = false
 			}
+			nSynced := 0
 			for _, o := range os {
+				if k, isK := o.V.(*ssa.Const); isK && k.Value == nil && isPtrT(k.Type()) {
+					continue // the nil pointer of an error path: dereferencing it sets no tip
+				}
 				if !isSynced(o.V) {
 					fromSynced = false
+				} else {
+					nSynced++
 				}
+			}
+			if nSynced == 0 {
+				fromSynced = false
 			}
 			if fromSynced {
 				c.OK(key, "copy of SyncStore.SyncedTo's answer", posOf(c, s))
@@ -1344,12 +1353,13 @@ func ruleBalanceMapCoversReadyWallets(c *report.Ctx) {
 				c.OK(key, "no balance map (received unconfirmed transaction: balances are not touched)", posOf(c, s))
 				continue
 			}
+			mo := defOrigins(m)
 			ok := false
 			owner := apiOwnerOrSelf(p, f)
 			for _, g := range append([]*ssa.Function{owner}, owner.AnonFuncs...) {
 				an.Instrs(g, func(in ssa.Instruction) {
 					mu, isMU := in.(*ssa.MapUpdate)
-					if !isMU || an.ResolveCell(mu.Map) != m {
+					if !isMU || !sharesOrigin(defOrigins(mu.Map), mo) {
 						return
 					}
 					// key = the key of a range over FetchAllMinedBalance's result
@@ -1618,4 +1628,46 @@ func constantInt64(k *types.Const) (int64, bool) {
 		v = v*10 + int64(ch-'0')
 	}
 	return v, true
+}
+
+// defOrigins: the non-nil definitions a value can come from, through phis (merged results of an inlined helper),
+// type changes and single-store local cells.
+func defOrigins(v ssa.Value) map[ssa.Value]bool {
+	out := map[ssa.Value]bool{}
+	seen := map[ssa.Value]bool{}
+	var walk func(v ssa.Value, d int)
+	walk = func(v ssa.Value, d int) {
+		v = an.ResolveCell(v)
+		if seen[v] || d > 8 {
+			return
+		}
+		seen[v] = true
+		switch x := v.(type) {
+		case *ssa.Phi:
+			for _, e := range x.Edges {
+				walk(e, d+1)
+			}
+		case *ssa.ChangeType:
+			walk(x.X, d+1)
+		case *ssa.Convert:
+			walk(x.X, d+1)
+		case *ssa.Const:
+			if x.Value != nil {
+				out[v] = true
+			}
+		default:
+			out[v] = true
+		}
+	}
+	walk(v, 0)
+	return out
+}
+
+func sharesOrigin(a, b map[ssa.Value]bool) bool {
+	for v := range a {
+		if b[v] {
+			return true
+		}
+	}
+	return false
 }
